@@ -1,4 +1,4 @@
-import os, sys, time, pickle, traceback
+import os, time, sys, time, pickle, traceback
 from sym import ir, kernels as K
 
 NPROC = int(os.environ.get("VERIF_NPROC", "14"))
@@ -80,12 +80,30 @@ def run_kernels(chk, items, parallel=None):
     pending = list(enumerate(items))
     pending.reverse()
 
+    started = {}
+    limit = float(os.environ.get("VERIF_ITEM_TIMEOUT", "3000" if chk.tier == "thorough" else "900"))
+
     def reap(block):
-        import select
+        import select, signal
+        if not running:
+            return
+        # wall-clock guard per item: a solver call that ignores its timeout (or an exploration that does not end) must not
+        # hang the check; the item is killed and recorded as undecided
+        now = time.time()
+        for pid, (idx, f) in list(running.items()):
+            if now - started.get(pid, now) > limit:
+                try:
+                    os.kill(pid, signal.SIGKILL)
+                except OSError:
+                    pass
+                os.close(f)
+                os.waitpid(pid, 0)
+                del running[pid]
+                results[idx] = dict(obs=[], violations=[], known=[], inconclusive=["kernel %s: no result within %d s (killed)" % (items[idx][0], limit)], functions={}, validated=0, samples=[])
         if not running:
             return
         fds = [fd for (_, fd) in running.values()]
-        r, _, _ = select.select(fds, [], [], None if block else 0)
+        r, _, _ = select.select(fds, [], [], 20 if block else 0)
         for fd in r:
             for pid, (idx, f) in list(running.items()):
                 if f == fd:
@@ -133,6 +151,7 @@ def run_kernels(chk, items, parallel=None):
                 os._exit(0)
             os.close(wfd)
             running[pid] = (idx, rfd)
+            started[pid] = time.time()
         reap(True)
     for idx in sorted(results):
         _apply(chk, results[idx])
